@@ -177,3 +177,298 @@ Proof.
     first [apply gen_l_naive_is_dst_eq | apply gen_l_is_ambiguous_eq | apply gen_l_isdst_eq
           | apply gen_l_utcoffset_eq | apply gen_l_dst_eq | apply gen_l_tzname_eq].
 Qed.
+
+(* ---------------------------------------------------------------------------------------------
+   _tzparser.parse, the slices regenerated from source (option monad: every IndexError / ValueError /
+   AssertionError inside parse() makes it return None):
+     gen_read_offset     the offset after an abbreviation   = TzParseModel.read_offset
+     gen_read_rule_time  the time of a rule after '/'       = read_hhmm true (one token further)
+     gen_posix_rule      one pass of `for x in (res.start, res.end)` of the POSIX branch = posix_rule
+   The asserted intermediate shapes are alpha-equivalent copies of the generated text: a change of
+   /repo that changes the generated term breaks these proofs. *)
+From Coq Require Import Arith.
+
+Lemma tk_lt : forall l i, (i <? length l)%nat = true -> exists t, tk l i = Some t.
+Proof.
+  intros l i H. apply Nat.ltb_lt in H. unfold tk.
+  destruct (nth_error l i) eqn:E; [eauto|]. apply nth_error_None in E. lia.
+Qed.
+Lemma tk_ge : forall l i, (i <? length l)%nat = false -> tk l i = None.
+Proof. intros l i H. apply Nat.ltb_ge in H. unfold tk. now apply nth_error_None. Qed.
+
+Ltac ob := cbn [obind andb orb].
+Ltac fin := ob; rewrite ?Nat.add_1_r, <- ?app_assoc; reflexivity.
+Lemma gen_read_offset_eq : forall l i, gen_read_offset l i = read_offset l i.
+Proof.
+  intros. unfold gen_read_offset, read_offset, tk_is, C_PLUS, C_MINUS, C_COLON. cbv zeta.
+  destruct (tk l i) as [t|] eqn:Et; [|ob; unfold read_hhmm; rewrite Et; reflexivity].
+  ob.
+  assert (H : forall j (signal : Z) (used : list nat) r,
+    r = (do (v, i2, used1) <- read_hhmm false l j; Some (v * signal, i2, used ++ used1)) ->
+    (do t3_ <- tk l j;
+      (do (signal, value, i, used, len_li) <-
+        (if (length t3_ =? 4)%nat
+         then do t4_ <- tk l j; do v5_ <- int_tok (firstn 2 t4_); do t6_ <- tk l j;
+              do v7_ <- int_tok (skipn 2 t6_);
+              Some (signal, (v5_ * 3600 + v7_ * 60) * signal, j, used, length t3_)
+         else do c9_ <- (if (j + 1 <? length l)%nat
+                         then do t8_ <- tk l (j + 1); Some (list_eqb t8_ [58]) else Some false);
+              (do (signal, value, i, used, len_li) <-
+                (if c9_
+                 then do t10_ <- tk l j; do v11_ <- int_tok t10_; do t12_ <- tk l (j + 2);
+                      do v13_ <- int_tok t12_;
+                      Some (signal, (v11_ * 3600 + v13_ * 60) * signal, (j + 2)%nat, used ++ [j], length t3_)
+                 else do (signal, value, i, used, len_li) <-
+                        (if (length t3_ <=? 2)%nat
+                         then do t14_ <- tk l j; do v15_ <- int_tok (firstn 2 t14_);
+                              Some (signal, v15_ * 3600 * signal, j, used, length t3_)
+                         else None);
+                      Some (signal, value, i, used, len_li));
+               Some (signal, value, i, used, len_li)));
+       Some (value, (i + 1)%nat, used ++ [i]))) = r).
+  { clear. intros j signal used r ->. unfold read_hhmm, tk_is, C_COLON.
+    destruct (tk l j) as [t|] eqn:Et; [|reflexivity]. ob.
+    destruct (length t =? 4)%nat eqn:E4.
+    - ob. destruct (int_tok (firstn 2 t)); [|reflexivity]. ob.
+      destruct (int_tok (skipn 2 t)); [|reflexivity]. fin.
+    - rewrite Nat.add_1_r. destruct (S j <? length l)%nat eqn:El.
+      + destruct (tk_lt _ _ El) as [t8 E8]. rewrite E8. ob.
+        destruct (list_eqb t8 [58]).
+        * ob. destruct (int_tok t); [|reflexivity]. ob.
+          destruct (tk l (j + 2)) as [t2|]; [|reflexivity]. ob.
+          destruct (int_tok t2); [|reflexivity]. fin.
+        * ob. destruct (length t <=? 2)%nat; [|reflexivity]. ob.
+          destruct (int_tok (firstn 2 t)); [|reflexivity]. fin.
+      + rewrite (tk_ge _ _ El). ob.
+        destruct (length t <=? 2)%nat; [|reflexivity]. ob.
+        destruct (int_tok (firstn 2 t)); [|reflexivity]. fin. }
+  destruct (list_eqb t [43]) eqn:Ep; [|destruct (list_eqb t [45]) eqn:Em]; ob;
+    apply H; rewrite ?Nat.add_1_r; reflexivity.
+Qed.
+
+Lemma gen_read_rule_time_eq : forall l i,
+  gen_read_rule_time l i =
+  (do (v, i2, u2) <- read_hhmm true l (S i); Some (v, i2, [i] ++ u2)).
+Proof.
+  intros. unfold gen_read_rule_time, read_hhmm, tk_is, C_COLON. cbv zeta.
+  rewrite !Nat.add_1_r.
+  destruct (tk l (S i)) as [t|] eqn:Et; [|reflexivity]. ob.
+  destruct (length t =? 4)%nat eqn:E4.
+  - ob. destruct (int_tok (firstn 2 t)); [|reflexivity]. ob.
+    destruct (int_tok (skipn 2 t)); [|reflexivity]. fin.
+  - destruct (S (S i) <? length l)%nat eqn:El.
+    + destruct (tk_lt _ _ El) as [t8 E8]. rewrite E8. ob.
+      destruct (list_eqb t8 [58]).
+      * ob. destruct (int_tok t); [|reflexivity]. ob.
+        destruct (tk l (S i + 2)) as [t2|]; [|reflexivity]. ob.
+        destruct (int_tok t2); [|reflexivity]. ob.
+        destruct (S (S i + 2) <? length l)%nat eqn:El2.
+        -- destruct (tk_lt _ _ El2) as [t9 E9]. rewrite E9. ob.
+           destruct (list_eqb t9 [58]).
+           ++ ob. destruct (tk l (S i + 2 + 2)) as [t3|]; [|reflexivity]. ob.
+              destruct (int_tok t3); [|reflexivity]. fin.
+           ++ fin.
+        -- rewrite (tk_ge _ _ El2). fin.
+      * ob. destruct (length t <=? 2)%nat; [|reflexivity]. ob.
+        destruct (int_tok (firstn 2 t)); [|reflexivity]. fin.
+    + rewrite (tk_ge _ _ El). ob.
+      destruct (length t <=? 2)%nat; [|reflexivity]. ob.
+      destruct (int_tok (firstn 2 t)); [|reflexivity]. fin.
+Qed.
+
+Ltac dtk l j t := destruct (tk l j) as [t|] eqn:?; [|reflexivity]; ob.
+Ltac dint t := destruct (int_tok t); [|reflexivity]; ob.
+Ltac dintn t n := destruct (int_tok t) as [n|]; [|reflexivity]; ob.
+
+Lemma gen_posix_rule_eq : forall l i, gen_posix_rule l i = posix_rule l i.
+Proof.
+  intros. unfold gen_posix_rule, posix_rule, is_dash_or_dot, tk_is, C_J, C_M, C_MINUS, C_DOT. cbv zeta.
+  destruct (tk l i) as [t|] eqn:Et; [|reflexivity]. ob.
+  assert (TAIL : forall i0 used xm xw xwd xy xj xd,
+    (let used0 := used ++ [i0] in
+     let i1 := (i0 + 1)%nat in
+     do c22_ <- (if (i1 <? length l)%nat then do t21_ <- tk l i1; Some (list_eqb t21_ [47]) else Some false);
+     do (i2, used1, x_month0, x_week0, x_weekday0, x_yday0, x_jyday0, x_day0, x_time0) <-
+     (if c22_ then
+       let used1 := used0 ++ [i1] in
+       let i2 := (i1 + 1)%nat in
+       do t23_ <- tk l i2;
+       let len_li := length t23_ in
+       do (i3, used2, _, x_month0, x_week0, x_weekday0, x_yday0, x_jyday0, x_day0, x_time0) <-
+       (if (len_li =? 4)%nat then
+         do t24_ <- tk l i2; do v25_ <- int_tok (firstn 2 t24_); do t26_ <- tk l i2;
+         do v27_ <- int_tok (skipn 2 t26_);
+         let a28_ := v25_ * 3600 + v27_ * 60 in
+         Some (i2, used1, len_li, xm, xw, xwd, xy, xj, xd, Some a28_)
+        else
+         do c30_ <- (if (i2 + 1 <? length l)%nat then do t29_ <- tk l (i2 + 1); Some (list_eqb t29_ [58]) else Some false);
+         do (i3, used2, len_li0, x_month0, x_week0, x_weekday0, x_yday0, x_jyday0, x_day0, x_time0) <-
+         (if c30_ then
+           do t31_ <- tk l i2; do v32_ <- int_tok t31_; do t33_ <- tk l (i2 + 2); do v34_ <- int_tok t33_;
+           let a35_ := v32_ * 3600 + v34_ * 60 in
+           let used2 := used1 ++ [i2] in
+           let i3 := (i2 + 2)%nat in
+           do c37_ <- (if (i3 + 1 <? length l)%nat then do t36_ <- tk l (i3 + 1); Some (list_eqb t36_ [58]) else Some false);
+           do (i4, used3, len_li0, x_month0, x_week0, x_weekday0, x_yday0, x_jyday0, x_day0, x_time0) <-
+           (if c37_ then
+             let used3 := used2 ++ [i3] in
+             let i4 := (i3 + 2)%nat in
+             do t38_ <- tk l i4; do v39_ <- int_tok t38_;
+             let a40_ := a35_ + v39_ in
+             Some (i4, used3, len_li, xm, xw, xwd, xy, xj, xd, Some a40_)
+            else Some (i3, used2, len_li, xm, xw, xwd, xy, xj, xd, Some a35_));
+           Some (i4, used3, len_li0, x_month0, x_week0, x_weekday0, x_yday0, x_jyday0, x_day0, x_time0)
+          else
+           do (i3, used2, len_li0, x_month0, x_week0, x_weekday0, x_yday0, x_jyday0, x_day0, x_time0) <-
+           (if (len_li <=? 2)%nat then
+             do t41_ <- tk l i2; do v42_ <- int_tok (firstn 2 t41_);
+             let a43_ := v42_ * 3600 in
+             Some (i2, used1, len_li, xm, xw, xwd, xy, xj, xd, Some a43_)
+            else None);
+           Some (i3, used2, len_li0, x_month0, x_week0, x_weekday0, x_yday0, x_jyday0, x_day0, x_time0));
+         Some (i3, used2, len_li0, x_month0, x_week0, x_weekday0, x_yday0, x_jyday0, x_day0, x_time0));
+       let used3 := used2 ++ [i3] in
+       let i4 := (i3 + 1)%nat in
+       Some (i4, used3, x_month0, x_week0, x_weekday0, x_yday0, x_jyday0, x_day0, x_time0)
+      else Some (i1, used0, xm, xw, xwd, xy, xj, xd, @None Z));
+     do c45_ <- (if (i2 =? length l)%nat then Some true else do t44_ <- tk l i2; Some (list_eqb t44_ [44]));
+     if c45_ then let i3 := (i2 + 1)%nat in
+       Some (mkAttr x_month0 x_week0 x_weekday0 x_yday0 x_jyday0 x_day0 x_time0, i3, used1)
+     else None)
+    =
+    (let a := mkAttr xm xw xwd xy xj xd None in
+     let u := used ++ [i0] in let i := S i0 in
+     do (a, i, u) <-
+      (if tk_is l i C_SLASH then
+         do (v, i2, u2) <- read_hhmm true l (S i);
+         Some (mkAttr a.(x_month) a.(x_week) a.(x_weekday) a.(x_yday) a.(x_jyday) a.(x_day) (Some v),
+               i2, u ++ [i] ++ u2)
+       else Some (a, i, u));
+     if (i =? length l)%nat || tk_is l i C_COMMA then Some (a, S i, u)
+     else if (length l <? i)%nat then None else None)).
+  { clear. intros. cbv zeta. unfold read_hhmm, tk_is, C_SLASH, C_COMMA, C_COLON. cbn [x_month x_week x_weekday x_yday x_jyday x_day].
+    rewrite !Nat.add_1_r.
+    assert (FIN : forall (a : tzattr) j (u : list nat),
+      (do c45_ <- (if (j =? length l)%nat then Some true else do t44_ <- tk l j; Some (list_eqb t44_ [44]));
+       if c45_ then Some (a, S j, u) else None) =
+      (if (j =? length l)%nat || match tk l j with Some t => list_eqb t [44] | None => false end
+       then Some (a, S j, u) else if (length l <? j)%nat then None else None)).
+    { intros. destruct (j =? length l)%nat; [reflexivity|]. ob.
+      destruct (tk l j) as [t|]; ob; [|destruct (length l <? j)%nat; reflexivity].
+      destruct (list_eqb t [44]); [reflexivity|]. destruct (length l <? j)%nat; reflexivity. }
+    destruct (S i0 <? length l)%nat eqn:El0.
+    2:{ rewrite (tk_ge _ _ El0). ob. rewrite <- FIN. rewrite Nat.add_1_r. reflexivity. }
+    destruct (tk_lt _ _ El0) as [ts Es]. rewrite Es. ob.
+    destruct (list_eqb ts [47]).
+    2:{ ob. rewrite <- FIN. rewrite Nat.add_1_r. reflexivity. }
+    ob.
+    destruct (tk l (S (S i0))) as [t|] eqn:Et; [|reflexivity]. ob.
+    destruct (length t =? 4)%nat eqn:E4.
+    - ob. dint (firstn 2 t). dint (skipn 2 t). rewrite <- FIN. rewrite !Nat.add_1_r, <- ?app_assoc. reflexivity.
+    - destruct (S (S (S i0)) <? length l)%nat eqn:El.
+      + destruct (tk_lt _ _ El) as [t8 E8]. rewrite E8. ob.
+        destruct (list_eqb t8 [58]).
+        * ob. dint t.
+          destruct (tk l (S (S i0) + 2)) as [t2|]; [|reflexivity]. ob. dint t2.
+          destruct (S (S (S i0) + 2) <? length l)%nat eqn:El2.
+          -- destruct (tk_lt _ _ El2) as [t9 E9]. rewrite E9. ob.
+             destruct (list_eqb t9 [58]).
+             ++ ob. destruct (tk l (S (S i0) + 2 + 2)) as [t3|]; [|reflexivity]. ob. dint t3.
+                rewrite <- FIN. rewrite !Nat.add_1_r, <- ?app_assoc. reflexivity.
+             ++ ob. rewrite <- FIN. rewrite !Nat.add_1_r, <- ?app_assoc. reflexivity.
+          -- rewrite (tk_ge _ _ El2). ob. rewrite <- FIN. rewrite !Nat.add_1_r, <- ?app_assoc. reflexivity.
+        * ob. destruct (length t <=? 2)%nat; [|reflexivity]. ob. dint (firstn 2 t).
+          rewrite <- FIN. rewrite !Nat.add_1_r, <- ?app_assoc. reflexivity.
+      + rewrite (tk_ge _ _ El). ob.
+        destruct (length t <=? 2)%nat; [|reflexivity]. ob. dint (firstn 2 t).
+        rewrite <- FIN. rewrite !Nat.add_1_r, <- ?app_assoc. reflexivity. }
+  destruct (list_eqb t [74]) eqn:EJ.
+  - ob. rewrite !Nat.add_1_r. dtk l (S i) t1. dint t1. apply TAIL.
+  - ob. destruct (list_eqb t [77]) eqn:EM.
+    + ob. rewrite !Nat.add_1_r. dtk l (S i) t1. dintn t1 mo.
+      dtk l (S (S i)) t2. destruct (list_eqb t2 [45] || list_eqb t2 [46]); [|reflexivity]. ob.
+      dtk l (S (S (S i))) t3. dintn t3 wk.
+      destruct (wk =? 5); ob; rewrite ?Nat.add_1_r;
+        (destruct (tk l (S (S (S (S i))))) as [t4|]; [|reflexivity]); ob;
+        (destruct (list_eqb t4 [45] || list_eqb t4 [46]); [|reflexivity]); ob; rewrite ?Nat.add_1_r;
+        (destruct (tk l (S (S (S (S (S i)))))) as [t5|]; [|reflexivity]); ob;
+        (destruct (int_tok t5); [|reflexivity]); ob; apply TAIL.
+    + ob. dint t. apply TAIL.
+Qed.
+
+(* gen_dep_rule: one pass of the rule loop of the deprecated comma format = dep_rule;
+   gen_name_tok / gen_span_name: the character class and the span loop of the abbreviation = name_tok / span_name *)
+Lemma gen_dep_rule_eq : forall l i, gen_dep_rule l i = dep_rule l i.
+Proof.
+  intros. unfold gen_dep_rule, dep_rule, C_MINUS. cbv zeta.
+  destruct (tk l i) as [t0|]; [|reflexivity]. ob.
+  destruct (int_tok t0) as [mo|]; [|reflexivity]. ob.
+  destruct (tk l (i + 2)) as [t1|] eqn:E1; [|reflexivity]. ob.
+  assert (R : forall (value : Z) (j : nat) (u : list nat),
+    (let used := u ++ [j] in let i := (j + 2)%nat in
+     do (value, i, used, x_month, x_week, x_weekday, x_yday, x_jyday, x_day, x_time) <-
+       (if negb (value =? 0)
+        then do t10_ <- tk l i; do v11_ <- int_tok t10_;
+             Some (value, i, used, Some mo, Some value, Some ((v11_ - 1) mod 7), @None Z, @None Z, @None Z, @None Z)
+        else do t13_ <- tk l i; do v14_ <- int_tok t13_;
+             Some (value, i, used, Some mo, @None Z, @None Z, @None Z, @None Z, Some v14_, @None Z));
+     let used := used ++ [i] in let i := (i + 2)%nat in
+     do t16_ <- tk l i; do v17_ <- int_tok t16_;
+     Some (mkAttr x_month x_week x_weekday x_yday x_jyday x_day (Some v17_), (i + 2)%nat, used ++ [i]))
+    =
+    (let u2 := [j] in let i := (j + 2)%nat in
+     do t2 <- tk l i; do n2 <- int_tok t2;
+     let a := if value =? 0 then mkAttr (Some mo) None None None None (Some n2) None
+              else mkAttr (Some mo) (Some value) (Some ((n2 - 1) mod 7)) None None None None in
+     let u3 := [i] in let i := (i + 2)%nat in
+     do t3 <- tk l i; do tm <- int_tok t3;
+     let a := mkAttr (x_month a) (x_week a) (x_weekday a) (x_yday a) (x_jyday a) (x_day a) (Some tm) in
+     Some (a, (i + 2)%nat, (u ++ u2) ++ u3 ++ [i]))).
+  { clear. intros. cbv zeta.
+    destruct (value =? 0); cbn [negb]; destruct (tk l (j + 2)) as [t2|]; try reflexivity; ob;
+      (destruct (int_tok t2) as [n2|]; [|reflexivity]); ob;
+      (destruct (tk l (j + 2 + 2)) as [t3|]; [|reflexivity]); ob;
+      (destruct (int_tok t3) as [tm|]; [|reflexivity]); ob;
+      cbn [x_month x_week x_weekday x_yday x_jyday x_day]; rewrite <- ?app_assoc; reflexivity. }
+  destruct (list_eqb t1 [45]).
+  - ob. rewrite Nat.add_1_r. destruct (tk l (S (i + 2))) as [t|]; [|reflexivity]. ob.
+    destruct (int_tok t) as [v|]; [|reflexivity]. ob.
+    etransitivity; [apply R|]. cbv zeta. cbn [app]. rewrite <- ?app_assoc. reflexivity.
+  - ob. destruct (int_tok t1) as [v|]; [|reflexivity]. ob.
+    etransitivity; [apply R|]. cbv zeta. cbn [app]. rewrite <- ?app_assoc. reflexivity.
+Qed.
+
+Lemma in_class_eq : forall c,
+  existsb (Z.eqb c) [48; 49; 50; 51; 52; 53; 54; 55; 56; 57; 58; 44; 45; 43] =
+  (is_digit c || (c =? 58) || (c =? 44) || (c =? 45) || (c =? 43)).
+Proof.
+  intros. unfold is_digit. cbn [existsb].
+  destruct (48 <=? c) eqn:A; destruct (c <=? 57) eqn:B; cbn [andb orb].
+  - apply Z.leb_le in A. apply Z.leb_le in B.
+    assert (H : c = 48 \/ c = 49 \/ c = 50 \/ c = 51 \/ c = 52 \/ c = 53 \/ c = 54 \/ c = 55 \/ c = 56 \/ c = 57) by lia.
+    repeat (destruct H as [H|H]; [subst c; reflexivity|]). subst c; reflexivity.
+  - apply Z.leb_gt in B.
+    repeat match goal with |- context [c =? ?k] =>
+      lazymatch k with 58 => fail | 44 => fail | 45 => fail | 43 => fail | _ =>
+        replace (c =? k) with false by (symmetry; apply Z.eqb_neq; lia) end end.
+    destruct (c =? 58), (c =? 44), (c =? 45), (c =? 43); reflexivity.
+  - apply Z.leb_gt in A.
+    repeat match goal with |- context [c =? ?k] =>
+      lazymatch k with 58 => fail | 44 => fail | 45 => fail | 43 => fail | _ =>
+        replace (c =? k) with false by (symmetry; apply Z.eqb_neq; lia) end end.
+    destruct (c =? 58), (c =? 44), (c =? 45), (c =? 43); reflexivity.
+  - apply Z.leb_gt in A. apply Z.leb_gt in B. lia.
+Qed.
+
+Lemma gen_name_tok_eq : forall t, gen_name_tok t = name_tok t.
+Proof.
+  unfold gen_name_tok, name_tok. induction t as [|c t IH]; [reflexivity|].
+  cbn [filter forallb]. rewrite in_class_eq.
+  destruct (is_digit c || (c =? 58) || (c =? 44) || (c =? 45) || (c =? 43)); cbn [negb andb]; [reflexivity|exact IH].
+Qed.
+
+Lemma gen_span_name_eq : forall suffix j, gen_span_name suffix j = span_name suffix j.
+Proof.
+  induction suffix as [|t rest IH]; intros; [reflexivity|].
+  cbn [gen_span_name span_name]. rewrite gen_name_tok_eq, Nat.add_1_r, IH. reflexivity.
+Qed.
